@@ -13,6 +13,10 @@ RULE = (
     "traverse_columns, area reads) must equal the grid. Evaluations = machine steps. Non-trivial history = contains an op "
     "whose target lay inside a repeated run at call time, or a repeated argument, or a column op on a ragged table / "
     "splitting a cell run; distinct by (initial spec, op list)."
+    ' Initial tables also: a constructor with one dimension omitted or 0, office-suite shaped tables (repeated column decla'
+    'ration with a default cell style, a merged title followed by one repeated covered cell, repeated empty tail). Row obje'
+    'cts may be kept by the caller (with or without clone=False) and handed in again (reuse_row, template_row_cycle); what '
+    'a re-used object contributes is its XML read independently at that moment.'
 )
 ASSUMPTIONS = [
     "lib/gridmodel.py transcribes the documented semantics of each operation (docstrings of table.py/row.py)",
